@@ -33,7 +33,9 @@ TRUSTED = [
 ]
 ASSUMPTIONS = [
     "the BAM is coordinate sorted and indexed (required by the tool), read names are not shared between samples, BX barcodes "
-    "are not shared between samples",
+    "are not shared between samples, --linked-read-distance-cutoff >= 0",
+    "the order-independent rule for linked reads (linked_tag_ok) is claimed where it is well defined: read names of a read set "
+    "distinct and 'within the cut-off' transitive among the reads of the barcode",
     "stream conservation is claimed for every run of the repaired region rule (run_fixed, what /repo implements after the "
     "fix); for the old rule (run_current, kept for the _refuted theorems) with --regions only when regions are sorted, pairwise "
     "disjoint and no alignment overlaps two regions",
@@ -50,7 +52,8 @@ Record ccase := mkCase {
   k_ok : bool;                                   (* the real run exited with status 0 *)
   k_outs : list (Z * aln);                       (* written records: (chromosome index | -1, record with its HP/PS/PC) *)
   k_list : option (list (Z * option Z * option Z * Z));
-  k_swap : option (list nat * Z * Z * list (option Z) * list (Z * tags3)) }.
+  k_swap : option (list nat * Z * Z * list (option Z) * list (Z * tags3));
+  k_exp : list (list (list vrow)) }.             (* per chromosome, per processed sample: the table column as generated *)
 Definition out_pairs (c : ccase) := map (fun o => (a_id (snd o), a_old (snd o))) (k_outs c).
 Definition outs_on (c : ccase) (k : Z) := map snd (filter (fun o => fst o =? k) (k_outs c)).
 Definition L1cons (c : ccase) := k_ok c && conserved_spec (k_chroms c) (k_user c) (k_tail c) (out_pairs c).
@@ -58,6 +61,21 @@ Definition L1tag (c : ccase) :=
   forallb (fun kc => let os := outs_on c (Z.of_nat (fst kc)) in
                      tags_ok_chrom (k_cfg c) (snd kc) os (map (fun o => (a_id o, a_old o)) os))
           (combine (seq 0 (length (k_chroms c))) (k_chroms c)).
+Definition L1link (c : ccase) :=
+  forallb (fun kc => let os := outs_on c (Z.of_nat (fst kc)) in
+                     linked_tags_ok_chrom (k_cfg c) (snd kc) os (map (fun o => (a_id o, a_old o)) os))
+          (combine (seq 0 (length (k_chroms c))) (k_chroms c)).
+Definition NOLINKAPPL (c : ccase) :=
+  negb (existsb (fun kc => let os := outs_on c (Z.of_nat (fst kc)) in
+                     linked_rule_applied (k_cfg c) (snd kc) os (map (fun o => (a_id o, a_old o)) os))
+          (combine (seq 0 (length (k_chroms c))) (k_chroms c))).
+Definition TABLE (c : ccase) :=
+  negb (k_ok c) ||
+  forallb (fun x => let '(k, (ch, ex)) := x in
+             let regs := match k_user c with None => None | Some l => Some (regs_of (Z.of_nat k) l) end in
+             Nat.eqb (length (c_samples ch)) (length ex) &&
+             forallb (fun se => table_ok regs (fst (fst se)) (snd se)) (combine (c_samples ch) ex))
+          (combine (seq 0 (length (k_chroms c))) (combine (k_chroms c) (k_exp c))).
 Definition L1swap (c : ccase) :=
   match k_swap c with
   | None => true
@@ -95,7 +113,11 @@ Definition U_L2 (u : config * list sample_in * list aln * list tags3) :=
   list_eqb tags_eqb (map (tag_aln cfg (prepare cfg samples)) alns) tags.
 Definition U_L1 (u : config * list sample_in * list aln * list tags3) :=
   let '(cfg, samples, alns, tags) := u in
-  tags_ok_chrom cfg (mkChrom samples alns) alns (map (fun t => (0, t)) tags).
+  tags_ok_chrom cfg (mkChrom samples alns) alns (map (fun t => (0, t)) tags)
+  && linked_tags_ok_chrom cfg (mkChrom samples alns) alns (map (fun t => (0, t)) tags).
+Definition U_NOLINKAPPL (u : config * list sample_in * list aln * list tags3) :=
+  let '(cfg, samples, alns, tags) := u in
+  negb (linked_rule_applied cfg (mkChrom samples alns) alns (map (fun t => (0, t)) tags)).
 """
 
 
@@ -183,7 +205,7 @@ def run_case(ctx, case, keep=False):
     try:
         files = G.materialize(case, wd)
         o = case["opts"]
-        out_bam, out_list = os.path.join(wd, "out.bam"), os.path.join(wd, "list.tsv")
+        out_bam, out_list = os.path.join(wd, "out.bam"), G.list_path(case, wd)
         rc, _, err = util.run_cli(ctx, G.cli_args(case, files, "vcf", out_bam, out_list), cwd=wd)
         res = {"rc": rc, "stderr": err.strip().splitlines()[-1][:300] if rc != 0 and err.strip() else ""}
         req = {"vcf": files["vcf"], "bam": files["bam"], "ref": None if o["no_reference"] else files["ref"], "opts": o}
@@ -200,7 +222,8 @@ def run_case(ctx, case, keep=False):
         res["list"] = None
         if rc == 0 and o["haplotag_list"] and os.path.exists(out_list):
             lines = []
-            for ln in open(out_list):
+            import gzip
+            for ln in (gzip.open(out_list, "rt") if out_list.endswith(".gz") else open(out_list)):
                 if ln.startswith("#"):
                     continue
                 n, h, ps, ch = ln.rstrip("\n").split("\t")
@@ -276,9 +299,11 @@ def case_term(case, res):
     chroms = case["chroms"]
     order = ext.get("samples_order") or []
     cts = []
+    exps = []
     for ci, c in enumerate(chroms):
         e = (ext.get("chroms") or {}).get(c)
         samples = []
+        exps.append([Raw(rows_term(G.expected_rows(case, c, s))) for s in order] if e else [])
         if e:
             for s in order:
                 samples.append(Raw("(" + rows_term(e["rows"][s]) + ", " + term([read_term(r, names, bxs) for r in e["reads"][s]]) + ")"))
@@ -306,7 +331,7 @@ def case_term(case, res):
             out2 = [(r["id"], tags_term(r["tags"])) for r in res["swapped"]]
             sw = ([Nat(j) for j in swp["perm"]], swp["ps"], k, smp, out2)
     return (f"(mkCase {cfg_term(o)} {term(cts)} {term(opt(user))} {term(tail)} {term(res['rc'] == 0)} {term(outs)} "
-            f"{term(opt(lst))} {term(opt(sw))})")
+            f"{term(opt(lst))} {term(opt(sw))} {term(exps)})")
 
 
 def nontrivial(res):
@@ -314,8 +339,9 @@ def nontrivial(res):
     return bool(t) and len(t) < len(res["out"])
 
 
-CHECKS = {"L1cons": "L1cons", "L1tag": "L1tag", "L1swap": "L1swap", "L1list": "L1list", "L2": "L2", "L2list": "L2list",
-          "NOTAMB": "NOTAMB", "OLDRULE": "OLDRULE"}
+CHECKS = {"L1cons": "L1cons", "L1tag": "L1tag", "L1link": "L1link", "TABLE": "TABLE", "L1swap": "L1swap", "L1list": "L1list",
+          "L2": "L2", "L2list": "L2list", "NOTAMB": "NOTAMB", "OLDRULE": "OLDRULE", "NOLINKAPPL": "NOLINKAPPL"}
+INFO_LABELS = {"NOTAMB", "OLDRULE", "NOLINKAPPL"}
 
 
 def check_cases(ctx, cases, label, report=True):
@@ -376,9 +402,107 @@ def check_cases(ctx, cases, label, report=True):
             ctx.tally("cli.error_exit")
         if "NOTAMB" in fails:
             ctx.tally("cli.group_with_tied_phase_sets")
+        if "NOLINKAPPL" in fails:
+            ctx.tally("cli.bx.runs_where_cloud_rule_applied_to_split_barcode")
+        feature_tallies(ctx, c, r)
         if "OLDRULE" in fails:
             ctx.tally("cli.matches_old_region_rule_only")
     return out
+
+
+def feature_tallies(ctx, c, r):
+    """input-distribution counters for the coverage audit (per run: 1 if the feature occurs, unless stated)"""
+    t = ctx.tally
+    o = c["opts"]
+    t("cli.cutoff." + str(o["cutoff"]))
+    if c.get("bx_traps") and not o["ignore_linked_read"]:
+        t("cli.bx.runs_with_constructed_far-before-near_barcode")
+    t("cli.region_kind." + c.get("region_kind", "?"))
+    t("cli.vcf.phase_tag." + c.get("phase_tag", "PS"))
+    if o.get("list_gz") and o["haplotag_list"]:
+        t("cli.opt.list_gz")
+    if c["samples"] != sorted(c["samples"]):
+        t("cli.samples.vcf_order_not_sorted")
+    if o["samples"] and len(o["samples"]) > 1 and o["samples"] != sorted(o["samples"]):
+        t("cli.samples.--sample_order_not_sorted")
+    sms = [g.get("SM") for g in c["rgs"]]
+    if any(sms[i] != sms[i + 1] and sms[i] in sms[i + 2:] for i in range(len(sms) - 1)):
+        t("cli.rg.sample_with_non_adjacent_read_groups")
+    if sms:
+        t("cli.rg.max_groups_per_sample.%d" % max(sms.count(x) for x in set(sms)))
+    if None in sms:
+        t("cli.rg.group_without_SM")
+    if not sms:
+        t("cli.rg.no_RG_header")
+    ex = [e for v in c.get("extra_records", {}).values() for e in v]
+    ext_ch = r["ext"].get("chroms") or {}
+    covered = {(ch, v[0]) for ch, e in ext_ch.items() for rs in e["reads"].values() for rd in rs for v in rd[3]}
+    for ch, v in c.get("extra_records", {}).items():
+        for e in v:
+            t("cli.vcf.extra_record." + ("multiALT_" if len(e["alts"]) > 1 else "duplicate_pos_") + e["where"], 1)
+            if e["where"] == "before" and (ch, e["pos"]) in covered:
+                t("cli.vcf.multiALT_twin_of_phased_het_covered_by_a_detected_read", 1)
+    if c.get("vcf_extra_contig"):
+        t("cli.vcf.contig_unknown_to_bam." + c["vcf_extra_contig"])
+    for a in c["alns"]:
+        ops = {x[0] for x in a["cigar"]}
+        f = a["flag"]
+        for name, cond in (("reference_skip_N", "N" in ops), ("soft_clip", "S" in ops), ("hard_clip", "H" in ops),
+                           ("indel_in_cigar", bool(ops & {"I", "D"})), ("secondary", f & 0x100), ("supplementary", f & 0x800),
+                           ("duplicate", f & 0x400), ("placed_unmapped", f & 0x4),
+                           ("paired_same_strand", (f & 0x1) and not (f & 0x4) and not (f & 0x30)),
+                           ("paired_opposite_strand", (f & 0x1) and not (f & 0x4) and (f & 0x30)),
+                           ("mapq_19", a["mapq"] == 19), ("mapq_20", a["mapq"] == 20), ("mapq_below_19", 0 < a["mapq"] < 19),
+                           ("stale_HP_PS_PC", any(x[0] in ("HP", "PS", "PC") for x in a["tags"])),
+                           ("BX", any(x[0] == "BX" for x in a["tags"]))):
+            if cond:
+                t("cli.records." + name)
+    # decisions, recomputed by a python oracle from the driver's data (tally only)
+    d = 50000 if o["cutoff"] is None else o["cutoff"]
+    for ch, e in ext_ch.items():
+        for smp, reads in e["reads"].items():
+            info = {p: ph for p, _, ph in e["rows"][smp] if ph is not None}
+            t("cli.read_sets.size_0" if not reads else "cli.read_sets.size_1" if len(reads) == 1 else "cli.read_sets.size_2+")
+            for rd in reads:
+                tab = {}
+                for p, al, q in rd[3]:
+                    if p in info:
+                        ps, ph = info[p]
+                        if al in ph:
+                            v = tab.setdefault(ps, [0] * len(ph))
+                            for i, x in enumerate(ph):
+                                if x == al:
+                                    v[i] += q
+                if len(tab) >= 2:
+                    t("cli.reads.covering_2+_phase_sets")
+                    mx = sorted((max(v) for v in tab.values()), reverse=True)
+                    if mx[0] == mx[1]:
+                        t("cli.reads.phase_sets_with_equal_maximum")
+                if tab:
+                    best = max(tab.values(), key=max)
+                    sv = sorted(best, reverse=True)
+                    t("cli.reads.tie_at_top" if sv[0] == sv[1] else "cli.reads.strict_best")
+                    if sv[0] != sv[1] and len(sv) > 2 and sv[1] == sv[2]:
+                        t("cli.reads.tie_for_second_place(ploidy>2)")
+                    if 0 in [q for _, _, q in rd[3]]:
+                        t("cli.reads.with_quality_0_allele")
+            if not o["ignore_linked_read"]:
+                by = {}
+                for rd in reads:
+                    if rd[2]:
+                        by.setdefault(rd[2], []).append(rd)
+                for b, lst in by.items():
+                    t("cli.bx.barcode_groups.size_1" if len(lst) == 1 else "cli.bx.barcode_groups.size_2+")
+                    a0 = lst[0][1]
+                    far_seen = False
+                    for rd in lst[1:]:
+                        if abs(rd[1] - a0) > d:
+                            far_seen = True
+                        elif far_seen:
+                            t("cli.bx.far_read_listed_before_near_read")
+                            break
+                    if any(abs(x[1] - a0) > d for x in lst[1:]) and any(abs(x[1] - a0) <= d for x in lst[1:]):
+                        t("cli.bx.barcode_with_near_and_far_reads")
 
 
 def describe(c, r):
@@ -448,6 +572,12 @@ def report_cli(ctx, evaluated, shrink=True):
         if "L1tag" in fails:
             ctx.violation("haplotag:tag-rule", "a written alignment's HP/PS/PC contradict the best-haplotype rule: " + describe(c, r),
                           {"kind": "cli", "case": c})
+        if "L1link" in fails:
+            ctx.violation("haplotag:tag-rule-linked", "an alignment tagged through its own read does not carry the best haplotype of "
+                          "its (order-independent) read cloud: " + describe(c, r), {"kind": "cli", "case": c})
+        if "TABLE" in fails:
+            ctx.violation("haplotag:phased-variant-table", "the variant table used for tagging is not the table of the VCF's biallelic "
+                          "records (a phased heterozygous variant is lost or altered): " + describe(c, r), {"kind": "cli", "case": c})
         if "L1swap" in fails:
             ctx.violation("haplotag:swap-symmetry", f"permuting the haplotypes of phase set {c['swap']} does not permute HP for exactly "
                           "the reads of that set: " + describe(c, r), {"kind": "cli", "case": c})
@@ -583,10 +713,47 @@ def gen_unit_random(rng, n):
         yield srows, sreads, cfg, alns
 
 
+def gen_unit_clustered(rng, n):
+    """barcodes whose reads lie in clusters (diameter <= cut-off) far apart; the read-set order (by first covered variant)
+    is unrelated to the start positions, so far reads are listed between the reads of a cloud"""
+    for _ in range(n):
+        pl = rng.choice([2, 2, 3])
+        c = rng.choice([0, 5, 10, 30])
+        cfg = dict(ploidy=pl, linked=True, cutoff=c)
+        positions = list(range(10, 10 + 10 * rng.randint(3, 8), 10))
+        nb = rng.randint(1, 2)
+        rows = []
+        for p in positions:
+            ph = [rng.randint(0, 1) for _ in range(pl)]
+            rows.append((p, len(set(ph)) == 1, (rng.randrange(nb) * 100 + 7, ph)))
+        reads, alns = [], []
+        k = 0
+        for b in range(rng.randint(1, 2)):
+            for center in rng.sample([0, 1000, 2000, 5000], rng.randint(2, 3)):
+                for _ in range(rng.randint(1, 3)):
+                    start = center + rng.randint(0, c)
+                    vs = sorted(rng.sample(positions, rng.randint(1, min(3, len(positions)))))
+                    name = f"r{k}"
+                    k += 1
+                    reads.append((name, start, f"bx{b}", [(p, rng.randint(0, 1), rng.choice([1, 2, 3, 10, 30])) for p in vs]))
+                    alns.append((name, start, f"bx{b}"))
+        for j in range(rng.randint(0, 2)):
+            alns.append((f"x{j}", rng.choice([0, 1000, 2000, 5000]) + rng.randint(0, 2 * c + 1), f"bx{rng.randrange(2)}"))
+        reads.sort(key=lambda r: (r[3][0][0], r[0]))
+        yield [rows], [reads], cfg, alns
+
+
 def check_units(ctx, units, label):
     terms, raw = [], []
     for srows, sreads, cfg, alns in units:
-        tags = unit_impl(srows, sreads, cfg, alns)
+        try:
+            tags = unit_impl(srows, sreads, cfg, alns)
+        except Exception as e:      # an exception of the implementation on a well-formed table is an output, not a harness error
+            ctx.violation("haplotag:crash-unit", f"prepare_haplotag_information/attempt_add_phase_information raised "
+                          f"{type(e).__name__}: {e} on rows={srows} reads={sreads} cfg={cfg} alns={alns}",
+                          {"kind": "unit", "unit": [srows, sreads, cfg, alns]})
+            ctx.tally("unit.exception")
+            continue
         raw.append((srows, sreads, cfg, alns, tags))
         terms.append(unit_term(srows, sreads, cfg, alns, tags))
         nvars = max((len(r[3]) for reads in sreads for r in reads), default=0)
@@ -595,9 +762,10 @@ def check_units(ctx, units, label):
         ctx.tally("unit.tagged", sum(1 for t in tags if t[0] is not None))
         ctx.tally("unit.untagged", sum(1 for t in tags if t[0] is None))
     shard = max(50, -(-len(terms) // 16))
-    failing, errors = eval_checks("C10unit", HEADER, {"L1": "U_L1", "L2": "U_L2"}, terms, shard=shard)
+    failing, errors = eval_checks("C10unit", HEADER, {"L1": "U_L1", "L2": "U_L2", "NOLINKAPPL": "U_NOLINKAPPL"}, terms, shard=shard)
     if errors:
         raise RuntimeError("coq evaluation failed: " + errors[0][1])
+    ctx.tally("unit.cloud_rule_applied_to_split_barcode", len(failing["NOLINKAPPL"]))
     for i in failing["L1"]:
         srows, sreads, cfg, alns, tags = raw[i]
         ctx.violation("haplotag:tag-rule", f"prepare_haplotag_information/attempt_add_phase_information contradict the best-haplotype "
@@ -633,13 +801,14 @@ def region_grid_cases(rng, full):
 def run(ctx):
     rng = ctx.rng
     # ---- unit stream (decision rule), exhaustive small tables + random
-    units = list(gen_unit_exhaustive(1 if ctx.quick else 2)) + list(gen_unit_random(rng, ctx.n(1500, 30000)))
+    units = (list(gen_unit_exhaustive(1 if ctx.quick else 2)) + list(gen_unit_random(rng, ctx.n(1500, 30000)))
+             + list(gen_unit_clustered(rng, ctx.n(600, 10000))))
     ul2 = check_units(ctx, units, "all")
     ctx.extra["unit_exhaustive_tables"] = sum(1 for _ in gen_unit_exhaustive(1 if ctx.quick else 2))
     ctx.exhaustive = True
     # ---- CLI stream
     cases = []
-    for kind in ("overlapping", "unsorted", "sorted-near", "sorted-far", "chrom-order", "chrom", "open", "single"):
+    for kind in ("overlapping", "unsorted", "sorted-near", "sorted-far", "chrom-order", "chrom", "open", "single", "edge"):
         cases += [G.gen_case(rng, region_kind=kind) for _ in range(ctx.n(3, 25))]
     cases += [G.gen_case(rng, region_kind="none") for _ in range(ctx.n(40, 250))]
     # contigs holding only placed-but-unmapped records (last / in the middle of the header), empty contigs
@@ -652,7 +821,7 @@ def run(ctx):
     for e in ev[:1] + ev[-2:]:
         ctx.sample({"opts": e["case"]["opts"], "ploidy": e["case"]["ploidy"], "input_alignments": len(e["res"]["inp"]),
                     "output_records": len(e["res"]["out"]), "tagged": sum(1 for x in e["res"]["out"] if x["tags"][0] is not None),
-                    "failed_checks": sorted(e["fails"] - {"NOTAMB", "OLDRULE"})})
+                    "failed_checks": sorted(e["fails"] - INFO_LABELS)})
     l2 = report_cli(ctx, ev)
     if ul2 or l2:
         ctx.disagreements_checked += len(ul2) + len(l2)
